@@ -156,6 +156,10 @@ func (s *reportSim) spawnWarrior(wi int, startOffset Address) error {
 		return fmt.Errorf("warrior already spawned")
 	}
 
+	// offsets are positions on the circular core: reduce first, so that
+	// startOffset+i cannot wrap around in uint64
+	startOffset = startOffset % s.m
+
 	for i := Address(0); i < Address(len(w.data.Code)); i++ {
 		s.mem[(startOffset+i)%s.m] = w.data.Code[i]
 	}
